@@ -111,7 +111,7 @@ fn main() {
                 "oracle" => fam_oracle::gen(&mut rng, want, &mut part),
                 "health" => fam_health::gen(&mut rng, want, &mut part),
                 "panic" => fam_panic::gen(&mut rng, want, &mut part),
-                "venue" => { let half = (want + 1) / 2; mon_kamino::gen(&mut rng, half, &mut part); let mut d: Vec<String> = Vec::new(); mon_drift::gen(&mut rng, want - half.min(want), &mut d); part.extend(d); }
+                "venue" => { let third = (want + 2) / 3; mon_kamino::gen(&mut rng, third, &mut part); let mut d: Vec<String> = Vec::new(); mon_drift::gen(&mut rng, third.min(want.saturating_sub(third)), &mut d); part.extend(d); let mut sl: Vec<String> = Vec::new(); mon_solend::gen(&mut rng, want.saturating_sub(part.len()), &mut sl); part.extend(sl); }
                 "world" => fam_world::gen(&mut rng, want, &mut part),
                     _ => unreachable!(),
                 }));
